@@ -207,7 +207,8 @@ def gen_world(rng, klass="full", size=2):
         out += ["  " + l for l in body] + ["  }"]
         stats["inline_ifaces"] = stats.get("inline_ifaces", 0) + 1
     out.append("}")
-    return "\n".join(out) + "\n", stats
+    # wit-component: "`stream<char>` is not valid at this time"
+    return ("\n".join(out) + "\n").replace("stream<char>", "stream<u8>"), stats
 
 
 if __name__ == "__main__":
